@@ -39,6 +39,7 @@ func init() {
 			{Name: "FIFO/queues", Min: 7, Run: ruleFIFO(allQueues...), Doc: "queue update forms"},
 			{Name: "CTX/conn", Min: 25, Run: ruleConfinement, Doc: "subscription state confined to the connection worker"},
 			{Name: "PAIR/snapshot-current", Min: 1, Run: ruleSnapshotCurrent, Doc: "re-sendable resource has a current snapshot"},
+			{Name: "DOM/reset-protocol", Min: 1, Run: ruleResetProtocol, Doc: "the reset window closes on every outcome of the re-fetch (state events are dropped while it is open)"},
 			{Name: "WHO/state", Min: 5, Run: ruleWho([]whoEntry{
 				{"server.Subscription.version", w("(*server.Subscription).processEvent", "version+1 per update", "(*server.Subscription).setModel", "snapshot", "(*server.Subscription).setCollection", "snapshot")},
 				{"server.Subscription.queueFlag", w("server.NewSubscription", "initial loading gate", "(*server.Subscription).queueEvents", "close", "(*server.Subscription).unqueueEvents", "open")},
@@ -87,6 +88,7 @@ func init() {
 			{Name: "PAIR/version-bump", Min: 2, Run: ruleVersionBump, Doc: "version bump"},
 			{Name: "DOM/version-filter", Min: 1, Run: ruleVersionFilter, Doc: "version filter on delivery"},
 			{Name: "DOM/event-gate", Min: 1, Run: ruleEventGate, Doc: "event gate"},
+			{Name: "DOM/reset-protocol", Min: 1, Run: ruleResetProtocol, Doc: "the reset window, during which state events are dropped, closes on every outcome of the re-fetch"},
 		},
 	})
 
@@ -136,6 +138,7 @@ func init() {
 			{Name: "CONF/handle-event", Min: 1, Run: ruleHandleEvent, Doc: "reaccess bypasses the not-loaded filter in the cache"},
 			{Name: "DOM/revoke", Min: 1, Run: ruleRevoke, Doc: "denial unsubscribes all direct subscriptions with the reason"},
 			{Name: "DOM/reset-protocol", Min: 1, Run: ruleResetProtocol, Doc: "reset access fan-out over base and queries"},
+			{Name: "PAIR/throttle-slot", Min: 1, Run: rulePairThrottle, Doc: "throttled re-access checks queued behind an answered one are released"},
 		},
 	})
 
@@ -150,6 +153,7 @@ func init() {
 			{Name: "PAIR/throttle-slot", Min: 1, Run: rulePairThrottle, Doc: "a governed request that is answered frees its throttle slot: requests waiting behind it (and the client requests depending on them) are not stranded"},
 			{Name: "PAIR/query-lock", Min: 1, Run: ruleQueryLock, Doc: "a failed query request releases its lock: requests queued behind it are answered"},
 			{Name: "CONF/worker-loop", Min: 2, Run: ruleWorkerLoops, Doc: "every accepted task (and the reply it carries) is run"},
+			{Name: "DOM/loopvar", Min: 1, Run: ruleLoopVar("server", "rpc"), Doc: "a queued request task does not capture the read loop's shared frame variable"},
 			{Name: "CTX/conn", Min: 25, Run: ruleConfinement, Doc: "continuations and replies on the connection worker"},
 		},
 	})
@@ -162,6 +166,7 @@ func init() {
 			{Name: "PAIR/direct-count", Min: 2, Run: rulePairDirect, Doc: "acquire/release of the direct count along every continuation path"},
 			{Name: "DOM/unsub-precond", Min: 1, Run: ruleUnsubPrecond, Doc: "unsubscribe precondition, count validation, limit"},
 			{Name: "DOM/revoke", Min: 1, Run: ruleRevoke, Doc: "revocation / delete remove all direct subscriptions"},
+			{Name: "PAIR/gc-countdown", Min: 1, Run: ruleGCCountdown, Doc: "a subscription whose last count is released is collected also when it lies on a reference cycle: nothing is left behind"},
 			{Name: "WHO/direct", Min: 1, Run: ruleWho([]whoEntry{
 				{"server.Subscription.direct", w("(*server.wsConn).addCount", "subscribe", "(*server.wsConn).removeCount", "unsubscribe")},
 			}), Doc: "who may write the direct count"},
@@ -192,6 +197,7 @@ func init() {
 			{Name: "PROV/token-cid", Min: 5, Run: ruleTokenCID, Doc: "requests carry the connection's own id and current token"},
 			{Name: "PROV/cid-taint", Min: 7, Run: ruleCIDTaint, Doc: "expanded names never reach client-facing sinks; ExpandCID callers; tid filter"},
 			{Name: "DOM/fanout-set", Min: 2, Run: ruleFanoutSet, Doc: "events go to the subscriber set of that resource"},
+			{Name: "DOM/token-fanout", Min: 1, Run: ruleTokenFanout, Doc: "a token event replaces the token id with the token: token resets address only holders of that token"},
 			{Name: "CTX/conn", Min: 25, Run: ruleConfinement, Doc: "token read on the connection worker only"},
 		},
 	})
